@@ -139,7 +139,11 @@ func LocalName(t *rapid.T, cfg *telemetry.UploadConfig, prog string, mark *int, 
 			// near misses that differ from an approved expansion only by bytes that are not valid UTF-8
 			// (a counter name is raw bytes in the file; text handling that repairs them must not turn it into an approved name).
 			// No two of these variants of one name become equal when the bytes are replaced by U+FFFD, as a JSON rendering does.
-			return rapid.SampledFrom([]string{one + "\xff", "\x80" + one, one[:len(one)/2] + "\xfe" + one[len(one)/2:], one + "\xed\xa0\x80"}).Draw(t, "invalidUTF8Name")
+			variants := []string{one + "\xff", "\x80" + one, one + "\xed\xa0\x80"}
+			if len(one) >= 2 {
+				variants = append(variants, one[:len(one)/2]+"\xfe"+one[len(one)/2:]) // (in the middle; at the front it would render like the second)
+			}
+			return rapid.SampledFrom(variants).Draw(t, "invalidUTF8Name")
 		}
 		// near misses of an approved expansion
 		return rapid.SampledFrom([]string{one[:len(one)-1] + "", one + "x", one + " ", strings.ToUpper(one), " " + one,
